@@ -32,6 +32,7 @@ const (
 	PKCur    ParamKind = iota // current value of a local / parameter cell
 	PKEntry                   // value of a parameter at function entry
 	PKResult                  // i-th result
+	PKAddr                    // address of an address-taken local (&x in a clause)
 )
 
 type WParam struct {
@@ -41,6 +42,7 @@ type WParam struct {
 	Var    *types.Var // for PKCur / PKEntry
 	ResIdx int
 	Type   types.Type
+	TypeStr string // printed type of a callee value (invoke clauses); Type is nil then
 }
 
 type Clause struct {
@@ -93,6 +95,7 @@ type LoopSpec struct {
 }
 
 type Contract struct {
+	Stale      string // non-empty: the contract no longer fits the code (clause does not compile); the function is reported, not its package
 	PkgPath    string
 	Key        string // "Cipher", "Writer.Flush", "Parameters.Parse$1"
 	CallsiteRequires map[string][]*Clause // obligations at every call of a callee, over the caller's variables
@@ -730,6 +733,12 @@ func (g *genCtx) sigOf(c *Contract) (*sigInfo, bool) {
 // compileClause generates the wrapper for one clause. pos is where identifiers are resolved.
 // mode: "pre" (params = entry values), "post" (params = entry values, results bound), "loop" (names = current cells, old(x) = entry).
 func (g *genCtx) compileClause(c *Contract, cl *Clause, si *sigInfo, pos token.Pos, mode string, retType string) {
+	g.compileClauseX(c, cl, si, pos, mode, retType, nil)
+}
+
+// compileClauseX: extras are "name type" declarations of callee values (c_self, c_<param>,
+// c_<result> of an invoke clause); they are passed like results, in this order.
+func (g *genCtx) compileClauseX(c *Contract, cl *Clause, si *sigInfo, pos token.Pos, mode string, retType string, extras []string) {
 	text := rewriteImplies(cl.Text)
 	expr, err := parser.ParseExpr(text)
 	if err != nil {
@@ -787,6 +796,12 @@ func (g *genCtx) compileClause(c *Contract, cl *Clause, si *sigInfo, pos token.P
 		case *ast.Ident:
 			if isBound(n.Name) || n.Name == "_" || n.Name == "nil" || n.Name == "true" || n.Name == "false" {
 				return n
+			}
+			for i, x := range extras {
+				if f := strings.SplitN(x, " ", 2); f[0] == n.Name {
+					addParam(WParam{Name: n.Name, Kind: PKResult, ResIdx: i, TypeStr: f[1]})
+					return n
+				}
 			}
 			if mode == "post" {
 				if i, ok := resIdx[n.Name]; ok && !inOld {
@@ -938,6 +953,16 @@ func (g *genCtx) compileClause(c *Contract, cl *Clause, si *sigInfo, pos token.P
 			n.Y = rewriteExpr(n.Y, inOld)
 			return n
 		case *ast.UnaryExpr:
+			if id, ok := n.X.(*ast.Ident); ok && n.Op == token.AND && mode == "loop" && !isBound(id.Name) {
+				// &x of a function-level local: the address of the real variable, not of a copy
+				if _, obj := scope.LookupParent(id.Name, pos); obj != nil {
+					if o, ok := obj.(*types.Var); ok && !isParam[o] && !o.IsField() && o.Parent() != g.pkg.Types.Scope() {
+						nm := "addr_" + id.Name
+						addParam(WParam{Name: nm, Kind: PKAddr, Var: o, Type: types.NewPointer(o.Type())})
+						return &ast.Ident{Name: nm}
+					}
+				}
+			}
 			n.X = rewriteExpr(n.X, inOld)
 			return n
 		case *ast.ParenExpr:
@@ -994,6 +1019,10 @@ func (g *genCtx) compileClause(c *Contract, cl *Clause, si *sigInfo, pos token.P
 	wname = "vc_" + strings.Trim(strings.ReplaceAll(strings.ReplaceAll(wname, "ᐸ", ""), "ᐳ", ""), "_")
 	var plist []string
 	for _, p := range params {
+		if p.Type == nil {
+			plist = append(plist, p.Name+" "+p.TypeStr)
+			continue
+		}
 		plist = append(plist, p.Name+" "+g.typeStr(p.Type))
 	}
 	render := func(e ast.Expr) string {
@@ -1155,6 +1184,25 @@ func GenerateWrappers(pkg *packages.Package, cs *ContractSet) (string, []string)
 	}
 	for _, c := range mine {
 		c.Pkg = pkg
+		if c.Stale != "" {
+			continue
+		}
+		n0, b0 := len(g.errs), g.buf.Len()
+		g.genOne(c, mine)
+		if len(g.errs) > n0 && !c.IsIface && !c.Lemma && !c.External {
+			// the contract of one function does not fit the code any more: report that function, keep
+			// the rest of the package checkable
+			c.Stale = strings.Join(g.errs[n0:], "; ")
+			g.errs = g.errs[:n0]
+			g.buf.Truncate(b0)
+		}
+	}
+	return g.finish()
+}
+
+func (g *genCtx) genOne(c *Contract, mine []*Contract) {
+	pkg := g.pkg
+	for once := true; once; once = false {
 		if c.IsIface {
 			g.compileIface(c)
 			continue
@@ -1224,70 +1272,46 @@ func GenerateWrappers(pkg *packages.Package, cs *ContractSet) (string, []string)
 			m   map[string][]*Clause
 			pre bool
 		}{{c.InvokeEnsures, false}, {c.InvokeRequires, true}} {
-		for k, cls := range inv.m {
-			var ic *Contract
-			for _, o := range mine {
-				if o.IsIface && o.Key == k {
-					ic = o
-				}
+			var ks []string
+			for k := range inv.m {
+				ks = append(ks, k)
 			}
-			if ic == nil {
-				g.errs = append(g.errs, fmt.Sprintf("%s:%d: invoke %s: no iface contract of that name in this package", c.File, c.Line, k))
-				continue
-			}
-			iparams, iresults, err := splitSig(ic.Sig)
-			if err != nil {
-				g.errs = append(g.errs, fmt.Sprintf("%s:%d: %v", c.File, c.Line, err))
-				continue
-			}
-			j := strings.LastIndex(k, ".")
-			ifaceName := strings.TrimPrefix(k[:j], g.pkg.Name+".")
-			if ic.FuncType != "" {
-				ifaceName = strings.ReplaceAll(ic.FuncType, g.pkg.Name+".", "")
-			}
-			pl := []string{"c_self " + ifaceName}
-			if inv.pre {
-				iresults = nil
-			}
-			for _, d := range append(append([]string{}, iparams...), iresults...) {
-				pl = append(pl, "c_"+d)
-			}
-			for _, pv := range si.params {
-				pl = append(pl, pv.Name()+" "+g.typeStr(pv.Type()))
-			}
-			for _, cl := range cls {
-				g.n++
-				cl.Wrapper = strings.ReplaceAll(fmt.Sprintf("vc_invoke_%s_%s_%d", sanitize(strings.ReplaceAll(c.Key, ".", "_")), sanitize(cl.Label), g.n), ".", "_")
-				cl.RetType = "bool"
-				text := rewriteImplies(cl.Text)
-				final := text
-				if expr, perr := parser.ParseExpr(text); perr == nil {
-					var oldNodes []*ast.CallExpr
-					ast.Inspect(expr, func(n ast.Node) bool {
-						if ce, ok := n.(*ast.CallExpr); ok {
-							if id, ok := ce.Fun.(*ast.Ident); ok && id.Name == "old" && len(ce.Args) == 1 {
-								oldNodes = append(oldNodes, ce)
-							}
-						}
-						return true
-					})
-					if len(oldNodes) > 0 && inv.pre {
-						g.errs = append(g.errs, fmt.Sprintf("%s:%d: clause [%s]: old() is not available in invoke ... requires", cl.File, cl.Line, cl.Label))
-						continue
-					}
-					if len(oldNodes) > 0 {
-						// old(e): the state just before the call
-						f2, oerr := g.expandOld(expr, oldNodes, pl, "bool", g.contractFilePos())
-						if oerr != nil {
-							g.errs = append(g.errs, fmt.Sprintf("%s:%d: clause [%s]: %v", cl.File, cl.Line, cl.Label, oerr))
-							continue
-						}
-						final = f2
+			sort.Strings(ks)
+			for _, k := range ks {
+				var ic *Contract
+				for _, o := range mine {
+					if o.IsIface && o.Key == k {
+						ic = o
 					}
 				}
-				fmt.Fprintf(&g.buf, "// %s: clause about calls to %s [%s]\nfunc %s(%s) bool { return %s }\n\n", c.Key, k, cl.Label, cl.Wrapper, strings.Join(pl, ", "), final)
+				if ic == nil {
+					g.errs = append(g.errs, fmt.Sprintf("%s:%d: invoke %s: no iface contract of that name in this package", c.File, c.Line, k))
+					continue
+				}
+				iparams, iresults, err := splitSig(ic.Sig)
+				if err != nil {
+					g.errs = append(g.errs, fmt.Sprintf("%s:%d: %v", c.File, c.Line, err))
+					continue
+				}
+				j := strings.LastIndex(k, ".")
+				ifaceName := strings.TrimPrefix(k[:j], g.pkg.Name+".")
+				if ic.FuncType != "" {
+					ifaceName = strings.ReplaceAll(ic.FuncType, g.pkg.Name+".", "")
+				}
+				if inv.pre {
+					iresults = nil
+				}
+				extras := []string{"c_self " + ifaceName}
+				for _, d := range append(append([]string{}, iparams...), iresults...) {
+					extras = append(extras, "c_"+d)
+				}
+				for _, cl := range inv.m[k] {
+					// resolved in the function's outermost block: parameters, results, function-level
+					// locals (current values); old(e): the state just before the call (ensures) or at
+					// function entry (requires)
+					g.compileClauseX(c, cl, si, body.Rbrace-1, "loop", "bool", extras)
+				}
 			}
-		}
 		}
 		var ikeys []string
 		for k := range c.InvokeAssigns {
@@ -1296,7 +1320,7 @@ func GenerateWrappers(pkg *packages.Package, cs *ContractSet) (string, []string)
 		sort.Strings(ikeys)
 		for _, k := range ikeys {
 			for _, a := range c.InvokeAssigns[k] {
-				g.compileAssign(c, a, si, fpos, "loop")
+				g.compileAssign(c, a, si, body.Rbrace-1, "loop")
 			}
 		}
 		var ckeys []string
@@ -1343,6 +1367,10 @@ func GenerateWrappers(pkg *packages.Package, cs *ContractSet) (string, []string)
 			}
 		}
 	}
+}
+
+func (g *genCtx) finish() (string, []string) {
+	pkg := g.pkg
 	var out bytes.Buffer
 	out.WriteString("//go:build verif\n\n// Code generated by govc from " + contractFile + "; never written to the repository.\n\npackage " + pkg.Name + "\n\n")
 	var paths []string
@@ -1576,6 +1604,11 @@ func (g *genCtx) compileIface(c *Contract) {
 func (g *genCtx) compileLemma(c *Contract) {
 	// lemma NAME(params): requires.. ensures.. ; Key = "name(x int, y byte)"
 	j := strings.Index(c.Key, "(")
+	if j < 0 && c.Sig != "" {
+		// second generation round: the key was split already
+		j = len(c.Key)
+		c.Key += c.Sig
+	}
 	if j < 0 {
 		g.errs = append(g.errs, fmt.Sprintf("%s:%d: lemma needs a parameter list", c.File, c.Line))
 		return
